@@ -361,6 +361,68 @@ func (g *gen) fastCase(loop bool, maxTok int) HCase {
 	return fastCase(loop, g.mask(), held, rest, tags...)
 }
 
+// a cursor-position query that is not answered in time: CursorPosition returns after its 50 ms
+// time-out (plan step ACursorGiveUp in the middle of the plan), and only then does the terminal
+// send `after`.  `before` is handled while the call waits (a report in it answers the call: the
+// step is then its return).  User input after ANY finished query must be delivered: keys whose
+// legacy encoding has the shape of a cursor-position report (CSI R, CSI 1;m R) among them.
+func timeoutCase(loop bool, mask uint32, pre, before, after string, tags ...string) HCase {
+	hc := HCase{Loop: loop, Mask: mask, Tags: append([]string{"cursor-timeout-then-input", "app-cursor-query"}, tags...)}
+	if loop {
+		// loop mode: all application actions of the plan run before Bytes; `before` is part of
+		// the earlier traffic
+		hc.Pre = []byte(pre + before)
+		hc.Plan = []Step{{App: "ACursorQuery"}, {App: "ACursorGiveUp"}}
+		hc.Bytes = []byte(after + sentinelBytes)
+		hc.Show = quoted(hc.Pre) + " <CursorPosition times out> " + quoted(hc.Bytes)
+		hc.Tags = append(hc.Tags, "loop")
+		if len(hc.Pre) > 0 {
+			hc.Tags = append(hc.Tags, "earlier-traffic")
+		}
+		return hc
+	}
+	items := func(b string) {
+		for _, it := range parseItems([]byte(b)) {
+			it := it
+			hc.Plan = append(hc.Plan, Step{It: &it})
+		}
+	}
+	items(pre)
+	hc.Plan = append(hc.Plan, Step{App: "ACursorQuery"})
+	items(before)
+	hc.Plan = append(hc.Plan, Step{App: "ACursorGiveUp"})
+	items(after)
+	hc.Show = quoted([]byte(pre)) + " <CursorPosition> " + quoted([]byte(before)) + " <returns> " + quoted([]byte(after))
+	hc.Tags = append(hc.Tags, "direct")
+	return hc
+}
+
+func (g *gen) timeoutCase(loop bool, maxTok int) HCase {
+	f3 := func() token { return token{"key-f3-csiR", "\x1b[" + g.pick("R", "1;2R", "1;5R", "1;3R", "1;1R", "1;6R")} }
+	part := func(n int, withF3 bool) (string, []string) {
+		ts := dropTags(g.stream(n), "reply-osc52")
+		if withF3 {
+			for i, m := 0, 1+g.n(2); i < m; i++ {
+				k := g.n(len(ts) + 1)
+				ts = append(ts[:k:k], append([]token{f3()}, ts[k:]...)...)
+			}
+		}
+		return joinTokens(ts)
+	}
+	pre, t0 := "", []string(nil)
+	if g.n(2) == 0 {
+		pre, t0 = part(1+maxTok/2, g.n(3) == 0)
+	}
+	before, t1 := "", []string(nil)
+	if g.n(3) == 0 {
+		// traffic while the call waits: without a report of the CSI R shape the call times out
+		ts := dropTags(g.stream(1+maxTok/3), "reply-osc52", "reply-cpr", "key-f3-csiR", "garbage-params", "truncated")
+		before, t1 = joinTokens(ts)
+	}
+	after, t2 := part(maxTok, true)
+	return timeoutCase(loop, g.mask(), pre, before, after, append(append(t0, t1...), t2...)...)
+}
+
 // synthetic items the parser cannot deliver (empty parameter lists) and odd shapes
 func (g *gen) rawItem() Item {
 	fin := rune(g.pick("c", "R", "S", "n", "y", "~", "M", "m", "t", "u", "A")[0])
@@ -482,6 +544,20 @@ func directed() []HCase {
 				{"\x1b[8;24;80t\x1b[?62;4c\x1b[24;80R", "\x1b[1;2R"},
 			} {
 				out = append(out, fastCase(loop, m, f[0], f[1], "directed"))
+			}
+		}
+	}
+	// user input after a cursor-position query that timed out
+	for _, loop := range []bool{false, true} {
+		for _, m := range []uint32{0, all} {
+			for _, f := range [][3]string{
+				{"", "", "\x1b[1;2Rx"},
+				{"", "", "\x1b[R\x1b[1;5R"},
+				{"a", "b", "c\x1b[1;2R\x1b[1;2R"},
+				{"\x1b[1;2R", "", "\x1b[1;3R\x1bOR"},
+				{"", "\x1b[I", "\x1b[200~\x1b[1;2R\x1b[201~\x1b[R"},
+			} {
+				out = append(out, timeoutCase(loop, m, f[0], f[1], f[2], "directed"))
 			}
 		}
 	}
@@ -668,11 +744,14 @@ func main() {
 	startup := hx.NewStream("startup", imports, "scase", "c03_startup_mismatches", "c03_startup_violations")
 	startup.Known, startup.KnownClass = "c03_startup_known", "startup-typeahead"
 	colour := hx.NewStream("colour", imports, "ccase", "c03_colour_mismatches", "c03_colour_violations")
+	size := hx.NewStream("size", imports, "zcase", "c03_size_mismatches", "c03_size_violations")
 	handle.ShardMax, startup.ShardMax, colour.ShardMax = 150, 100, 300
 
 	nDirect, nLoop, nMouse, nStart, maxTok := 750, 600, 400, 90, 8
 	nFastDirect, nFastLoop := 110, 70
 	nClip := 60
+	nTimeoutDirect, nTimeoutLoop := 24, 16
+	nSize := 40
 	nColDirect, nColLoop, nColSynth := 260, 60, 120
 	raceDelays := []time.Duration{0, 45 * time.Millisecond, 49500 * time.Microsecond, 50 * time.Millisecond, 50500 * time.Microsecond, 55 * time.Millisecond}
 	sizeDelays := []time.Duration{0, 99 * time.Millisecond, 101 * time.Millisecond}
@@ -680,6 +759,8 @@ func main() {
 		nDirect, nLoop, nMouse, nStart, maxTok = 12000, 9000, 6000, 1500, 12
 		nFastDirect, nFastLoop = 1600, 1000
 		nClip = 900
+		nTimeoutDirect, nTimeoutLoop = 300, 200
+		nSize = 500
 		nColDirect, nColLoop, nColSynth = 5000, 1200, 2500
 		for i := 0; i < 120; i++ {
 			raceDelays = append(raceDelays, 49*time.Millisecond+time.Duration(g.n(2000))*time.Microsecond)
@@ -720,6 +801,12 @@ func main() {
 	}
 	for i := 0; i < nClip; i++ {
 		direct = append(direct, clipCase(g.mask(), clipSchedule(g)))
+	}
+	for i := 0; i < nTimeoutDirect; i++ {
+		direct = append(direct, g.timeoutCase(false, maxTok))
+	}
+	for i := 0; i < nTimeoutLoop; i++ {
+		loop = append(loop, g.timeoutCase(true, maxTok))
 	}
 	outcomes := map[string]int{}
 	addH := func(hc HCase, res HResult) {
@@ -827,6 +914,9 @@ func main() {
 	// ---- colour stream: the content of the colour replies against the real Query* calls
 	tColour, colourStats := colourCases(g, colour, nColDirect, nColLoop, nColSynth)
 
+	// ---- size stream: start-up, then size requests against a terminal whose size changes
+	tSize := sizeCases(g, size, nSize)
+
 	// ---- timing samples
 	t0 = time.Now()
 	race, dv1 := cursorRace(raceDelays)
@@ -842,12 +932,13 @@ func main() {
 		"startup_seconds":   tStart.Seconds(),
 		"timing_seconds":    tTiming.Seconds(),
 		"colour_seconds":    tColour.Seconds(),
+		"size_seconds":      tSize.Seconds(),
 		"colour_stream":     colourStats,
 		"startup_reruns":    startupFlakes,
 		"cursor_reply_race": race,
 		"size_reply_race":   srace,
 		"timing_note":       "partial: replies are sent at sampled real delays around the 50 ms (CursorPosition) and 100 ms (reportWinsize) time-outs; only liveness of the loop afterwards is checked",
 	}
-	rule := "handle: a case is non-trivial when the implementation delivered an event other than a plain key, handed a cursor position or a clipboard text to a waiting caller, or crashed/wedged; mouse: parseMouseEvent accepted or panicked; startup: at least one capability detected; colour: a call to QueryColor / QueryForeground / QueryBackground passed its guards, wrote its query and returned"
-	cfg.Write("C03", rule, []*hx.Stream{handle, mouse, startup, colour}, extra, append(dv1, dv2...))
+	rule := "handle: a case is non-trivial when the implementation delivered an event other than a plain key, handed a cursor position or a clipboard text to a waiting caller, or crashed/wedged; mouse: parseMouseEvent accepted or panicked; startup: at least one capability detected; colour: a call to QueryColor / QueryForeground / QueryBackground passed its guards, wrote its query and returned; size: some Render of the history announced a new size"
+	cfg.Write("C03", rule, []*hx.Stream{handle, mouse, startup, colour, size}, extra, append(dv1, dv2...))
 }
